@@ -13,7 +13,8 @@ use domain::base::Ttl;
 use domain::crypto::sign::{generate, GenerateParams, KeyPair, SecretKeyBytes, SignError, SignRaw, Signature};
 use domain::dnssec::sign::keys::SigningKey;
 use domain::dnssec::sign::records::Rrset;
-use domain::dnssec::sign::signatures::rrsigs::sign_rrset;
+use domain::base::cmp::CanonicalOrd;
+use domain::dnssec::sign::signatures::rrsigs::{sign_rrset, sign_sorted_rrset_in};
 use domain::dnssec::validator::base::{DnskeyExt, RrsigExt};
 use domain::rdata::dnssec::Timestamp;
 use domain::rdata::{Dnskey, Rrsig, ZoneRecordData};
@@ -30,6 +31,8 @@ type SRec = Record<StoredName, StoredRecordData>;
 struct Recording {
     inner: KeyPair,
     seen: Rc<RefCell<Vec<Vec<u8>>>>,
+    /// the next signing operation fails (a key store that is briefly unavailable)
+    fail_next: Rc<std::cell::Cell<bool>>,
 }
 
 impl SignRaw for Recording {
@@ -40,6 +43,9 @@ impl SignRaw for Recording {
         self.inner.dnskey()
     }
     fn sign_raw(&self, data: &[u8]) -> Result<Signature, SignError> {
+        if self.fail_next.replace(false) {
+            return Err(SignError);
+        }
         self.seen.borrow_mut().push(data.to_vec());
         self.inner.sign_raw(data)
     }
@@ -224,11 +230,12 @@ fn one(c: &mut Ctx, fam: &str, idx: u64, keys: &[TestKey], log: &mut Option<std:
     // the generator may give data ZoneRecordData re-encodes differently; use what the library holds
     ctx::step("sign");
     let seen = Rc::new(RefCell::new(Vec::new()));
+    let fail_next = Rc::new(std::cell::Cell::new(false));
     let Ok(kp) = KeyPair::from_bytes(&tk.secret, &tk.dnskey) else {
         c.note("key pair could not be loaded");
         return;
     };
-    let key = SigningKey::new(sname(&signer_spelled), tk.dnskey.flags(), Recording { inner: kp, seen: seen.clone() });
+    let key = SigningKey::new(sname(&signer_spelled), tk.dnskey.flags(), Recording { inner: kp, seen: seen.clone(), fail_next: fail_next.clone() });
     let mut order = recs.clone();
     rng.shuffle(&mut order);
     let rrset = match Rrset::new_from_owned(&order) {
@@ -295,6 +302,52 @@ fn one(c: &mut Ctx, fam: &str, idx: u64, keys: &[TestKey], log: &mut Option<std:
         return;
     }
     c.count("signed_octets_compared", 1);
+    // --- the same RRset through the entry point with a caller-owned scratch buffer: whatever the
+    // buffer held before (octets of an earlier use, of a signing attempt that failed) the key is
+    // handed the RFC 4034 octets and nothing else
+    if rng.chance(1, 3) {
+        ctx::step("sign_sorted_rrset_in");
+        let mut sorted = order.clone();
+        sorted.sort_by(|a, b| a.data().canonical_cmp(b.data()));
+        if let Ok(srrset) = Rrset::new_from_owned(&sorted) {
+            let mut scratch: Vec<u8> = if rng.bool() { rng.bytes(rng.clone().range(1, 40)) } else { Vec::new() };
+            let fail_first = rng.bool();
+            seen.borrow_mut().clear();
+            let res = ctx::catch(|| {
+                let mut first_err = None;
+                if fail_first {
+                    fail_next.set(true);
+                    first_err = Some(sign_sorted_rrset_in(&key, &srrset, Timestamp::from(inc), Timestamp::from(exp), &mut scratch).is_err());
+                }
+                (first_err, sign_sorted_rrset_in(&key, &srrset, Timestamp::from(inc), Timestamp::from(exp), &mut scratch).map(|r| r.data().clone()))
+            });
+            match res {
+                Err(pi) => {
+                    c.violation(&format!("panic:{}", pi.site()), &format!("panic in sign_sorted_rrset_in: {} at {}:{}", pi.msg, pi.file, pi.line), rp(c, json!({})));
+                    return;
+                }
+                Ok((first_err, second)) => {
+                    if first_err == Some(false) {
+                        c.violation("scratch:failed-key-signed", "sign_sorted_rrset_in returned a signature although the key refused to sign", rp(c, json!({})));
+                        return;
+                    }
+                    let handed = seen.borrow().clone();
+                    match second {
+                        Err(e) => {
+                            c.violation("scratch:sign-refused", &format!("sign_sorted_rrset_in refuses an RRset that sign_rrset signs: {:?}", e), rp(c, json!({})));
+                            return;
+                        }
+                        Ok(_) if handed.len() != 1 || handed[0] != want => {
+                            let got = handed.first().cloned().unwrap_or_default();
+                            c.violation(&format!("scratch:signed-octets-differ:{}", if fail_first { "after-a-failed-attempt" } else { "buffer-not-empty-on-entry" }), &format!("with a reused scratch buffer the key is handed {} octets, the RFC 4034 construction has {} (the signature cannot verify)", got.len(), want.len()), rp(c, json!({})));
+                            return;
+                        }
+                        Ok(_) => c.count(if fail_first { "scratch_reused_after_failed_attempt" } else { "scratch_reused" }, 1),
+                    }
+                }
+            }
+        }
+    }
     // the RRSIG record itself
     if sig_rec.ttl().as_secs() != ttl || w::lower(sig_rec.owner().as_slice()) != w::lower(&owner) || rrsig.labels() != rrsig_labels(&owner) || rrsig.key_tag() != tag || rrsig.original_ttl().as_secs() != ttl || rrsig.type_covered().to_int() != t {
         c.violation("rrsig-fields", "the RRSIG record's owner, TTL, labels, key tag, original TTL or type covered are not those of the RRset and key", rp(c, json!({})));
